@@ -357,7 +357,7 @@ class OdeCtx(VerifContext):
         # requires (property quantifier): an ODE-modifier term lists at most MAXD dependency species
         if z3.is_app(n) and n.decl().name() == "odemod_ndeps":
             j, f = n.arg(0), n.arg(1)
-            interp.assume(z3.And(n >= 1, n <= MAXD))
+            interp.assume(z3.And(n >= 0, n <= MAXD))
             for m in range(MAXD):
                 interp.assume(z3.And(om_dep(j, f, m) >= 0, om_dep(j, f, m) < n_spec))
 
@@ -455,8 +455,81 @@ class OdeCtx(VerifContext):
             ("length(spjacrptr) == row + 1", C03),
             ("nnz == cnt(row * n_eqns + _c)", C03),
         ] + csr("(row * n_eqns + _c)"), modifies=("src", "srow"))
+        self.return_hooks[Q] = self.post
         self.stmt_hooks[(Q, "nnz = 0")] = self.h_csr_start
         self.stmt_hooks[(Q, "spjaccval.append(col)")] = self.h_csr_append
+
+    # ------------------------------------------------------------ postconditions (from the property statements)
+    POST = [
+        # C13 / C06: rate statements
+        ("rate/targets", ("C13",), "forall(lambda i: implies(0 <= i and i < N_REAC, stmt_target(result.rateeqns, i) == i))"),
+        ("rate/overridden", ("C13",), "forall(lambda i: implies(0 <= i and i < N_REAC and LM(i, N_MOD) >= 0, stmt_value(result.rateeqns, i) == user_val(LM(i, N_MOD)) and stmt_guard(result.rateeqns, i)))"),
+        ("rate/untouched", ("C13",), "forall(lambda i: implies(0 <= i and i < N_REAC and LM(i, N_MOD) < 0, stmt_value(result.rateeqns, i) == rate_orig('k', i) and stmt_guard(result.rateeqns, i) == win_orig('k', i)))"),
+        ("rate/length", ("C13", "C03"), "length(result.rateeqns) == N_REAC and length(result.hrateeqns) == N_HEAT and length(result.crateeqns) == N_COOL"),
+        # C02: Jacobian entries (flat row-major layout row*nrow+col)
+        ("jac/shape", ("C02", "C03"), "result.jac.nrow == n_eqns and length(result.jac.rhs) == n_eqns * n_eqns and n_eqns == ite(N_SPEC + ite(has_thermal, 1, 0) > 1, N_SPEC + ite(has_thermal, 1, 0), 1)"),
+        ("jac/species-entries", ("C02",), "forall(lambda i, j: implies(0 <= i and i < N_SPEC and 0 <= j and j < N_SPEC, den(result.jac.rhs, i * n_eqns + j) == J(N_REAC, i, j) + DOM1(N_OMOD, i, j)))"),
+        ("jac/thermal-row", ("C02",), "forall(lambda j: implies(has_thermal and 0 <= j and j < N_SPEC, den(result.jac.rhs, N_SPEC * n_eqns + j) == thermal_wrap(DHS(N_HEAT, j) - DCS(N_COOL, j))))"),
+        ("jac/omitted-are-zero", ("C02", "C03"), "forall(lambda t: implies(0 <= t and t < n_eqns * n_eqns and is00(result.jac.rhs, t), den(result.jac.rhs, t) == 0))"),
+        # C03: CSR well-formedness, as lemmas over the abstract view (src/srow/cnt)
+        ("csr/sizes", ("C03",), "length(result.jac.rows) == n_eqns + 1 and result.jac.nnz == length(result.jac.cols) and result.jac.nnz == length(result.jac.vals) and result.jac.nnz >= 0"),
+        ("csr/rows-start-at-0", ("C03",), "result.jac.rows[0] == 0"),
+        ("csr/rows-nondecreasing", ("C03",), "forall(lambda r: implies(0 <= r and r < n_eqns, result.jac.rows[r] <= result.jac.rows[r + 1]))"),
+        ("csr/rows-end-at-nnz", ("C03",), "result.jac.rows[n_eqns] == result.jac.nnz"),
+        ("csr/cols-in-range", ("C03",), "forall(lambda p: implies(0 <= p and p < result.jac.nnz, 0 <= result.jac.cols[p] and result.jac.cols[p] < n_eqns))"),
+        ("csr/cols-increasing-in-row", ("C03",), "forall(lambda r, p, q: implies(0 <= r and r < n_eqns and result.jac.rows[r] <= p and p < q and q < result.jac.rows[r + 1], result.jac.cols[p] < result.jac.cols[q]))"),
+        ("csr/entry-is-dense-entry", ("C03",), "forall(lambda r, p: implies(0 <= r and r < n_eqns and result.jac.rows[r] <= p and p < result.jac.rows[r + 1], not is00(result.jac.rhs, r * n_eqns + result.jac.cols[p]) and den(result.jac.vals, p) == den(result.jac.rhs, r * n_eqns + result.jac.cols[p])))"),
+        ("csr/every-nonzero-stored", ("C03",), "forall(lambda r, c: implies(0 <= r and r < n_eqns and 0 <= c and c < n_eqns and not is00(result.jac.rhs, r * n_eqns + c), result.jac.rows[r] <= cnt(r * n_eqns + c) and cnt(r * n_eqns + c) < result.jac.rows[r + 1] and result.jac.cols[cnt(r * n_eqns + c)] == c))"),
+    ]
+
+    def post(self, interp, env, value):
+        for name, props, clause in self.POST:
+            interp.prove(interp.spec_eval(clause, env, {"result": value}), "post/" + name, props, detail=clause)
+        self.post_fex(interp, env, value)
+
+    def post_fex(self, interp, env, value):
+        """C01: every element of result.fex is `ydot[slot] = <mass action + modifiers>;` (thermal: the
+        temperature equation)"""
+        fex = value.fex
+        has_thermal = env.lookup("has_thermal")
+        props = ("C01", "C04", "C13")
+        if not isinstance(fex, FList):
+            interp.fail("post/fex/shape", props, f"fex is {type(fex).__name__}")
+            return
+        interp.prove(fex.length == n_spec + (1 if has_thermal else 0), "post/fex/length", props)
+        k = fex.ivar
+        try:
+            st = cfrag.parse_stmts(fex.template)
+        except CTypeError as e:
+            interp.fail("post/fex/typing", props, f"{fex.template!r}: {e}")
+            return
+        ok = len(st) == 1 and isinstance(st[0], cfrag.Assign) and st[0].arr == "ydot" and st[0].index is not None
+        if not ok:
+            interp.fail("post/fex/statement-shape", props, f"{fex.template!r}")
+            return
+        rng = z3.And(k >= 0, k < n_spec)
+        interp.prove(z3.ForAll([k], z3.Implies(rng, st[0].index == k)), "post/fex/lhs-slot", props)
+        interp.prove(z3.ForAll([k], z3.Implies(rng, st[0].value == S(n_reac, k) + OM1(n_omod, k))), "post/fex/mass-action", props)
+        if has_thermal:
+            ov = [(i, v) for i, v in fex.overlay]
+            if len(ov) != 1:
+                interp.fail("post/fex/thermal-shape", ("C01",), f"{len(ov)} overlay entries")
+                return
+            pos, val = ov[0]
+            try:
+                st = cfrag.parse_stmts(val)
+            except CTypeError as e:
+                interp.fail("post/fex/typing", ("C01",), f"{val!r}: {e}")
+                return
+            ok = len(st) == 1 and isinstance(st[0], cfrag.Assign) and st[0].arr == "ydot" and st[0].index is not None
+            if not ok:
+                interp.fail("post/fex/statement-shape", ("C01",), f"{val!r}")
+                return
+            interp.prove(z3.And(pos == n_spec, st[0].index == n_spec), "post/fex/thermal-slot", ("C01",))
+            interp.prove(st[0].value == (c_gamma - 1) * (HS(n_heat) - CS(n_cool)) / c_kerg / c_npar,
+                         "post/fex/thermal-equation", ("C01",))
+        elif fex.overlay:
+            interp.fail("post/fex/unexpected-overlay", ("C01",), "extra equation without thermal processes")
 
     # ------------------------------------------------------------ ghost code
     def h_csr_start(self, interp, env):
